@@ -247,6 +247,10 @@ func (acc *DB) ExecDepositFrozen(addr, execaddr string, amount int64) (*types.Re
 		return nil, types.ErrSendSameToRecv
 	}
 	//issue coins to exec addr
+	//先检查冻结金额是否溢出, 避免ExecIssueCoins已经保存后execDepositFrozen失败, 留下部分更新
+	if _, err := safeAdd(acc.LoadExecAccount(addr, execaddr).Frozen, amount); err != nil {
+		return nil, err
+	}
 	receipt1, err := acc.ExecIssueCoins(execaddr, amount)
 	if err != nil {
 		return nil, err
